@@ -93,7 +93,7 @@ inductive FaultStep (cfg : Cfg) : Req → StreamEv → Obs → Prop
   | tooBigHeadServer (r : Req) (enc : Bytes) (s' : FSt) (fs : Bytes) (w : H3.WriteBuf.WB) :
       cfg.role = .server → fsSrc.pollNext r.rx.src = (.frame (.headers enc), s') →
       cfg.hdr.head enc = .tooBig → cfg.resp431 = some fs → H3.WriteBuf.fromFrame (.headers fs) = some w →
-      r.snd.stopped = none → r.snd.fin = false → live cfg r .head →
+      r.snd.stopped = none → r.snd.fin = false → r.snd.writing = none → live cfg r .head →
       FaultStep cfg r (.call .head) (.ans .tooBig)
   /-- server: over the limit, and the 431 itself exceeds the client's limit ⇒ header-too-big -/
   | tooBigHeadServerRefused (r : Req) (enc : Bytes) (s' : FSt) :
@@ -171,22 +171,22 @@ theorem fault_step (cfg : Cfg) (r : Req) (ev : StreamEv) (o : Obs) (hf : FaultSt
         (by rw [hsrc]; exact fs_isEos_false s _ he) (by rw [hsrc]; exact fs_next_reset s c rest he hr)]
   | stopSend c call hs hfin hw hl =>
     rw [Req.step_live cfg cell r _ hl]
-    cases call <;> simp [isWrite] at hw <;> simp [stepSend, write_stopped _ _ c hs hfin]
+    cases call <;> simp [isWrite] at hw <;> simp [stepSend, write_stopped _ _ _ c hs hfin]
   | malformedHead enc s' hn hm hl =>
     rw [Req.step_live cfg cell r _ hl, stepHead_malformed cfg cell r enc s' hn hm]
   | malformedTrailers enc ht he hm hl =>
     rw [Req.step_live cfg cell r _ hl, stepTrailers_malformed cfg cell r enc ht he hm]
   | tooBigHeadClient enc s' hrole hn hm hl =>
     rw [Req.step_live cfg cell r _ hl, stepHead_tooBig_client cfg cell r enc s' hrole hn hm]
-  | tooBigHeadServer enc s' fs w hrole hn hm h431 hw hs hfin hl =>
+  | tooBigHeadServer enc s' fs w hrole hn hm h431 hw hs hfin hw0 hl =>
     rw [Req.step_live cfg cell r _ hl, stepHead_tooBig_server cfg cell r enc s' hrole hn hm]
-    simp [tooBigServer, h431, write_ok _ _ w hs hfin hw]
+    simp [tooBigServer, h431, write_ok _ _ w hs hfin hw0 hw]
   | tooBigHeadServerRefused enc s' hrole hn hm h431 hl =>
     rw [Req.step_live cfg cell r _ hl, stepHead_tooBig_server cfg cell r enc s' hrole hn hm]
     simp [tooBigServer, h431]
   | tooBigHeadServerStopped enc s' fs c hrole hn hm h431 hs hfin hl =>
     rw [Req.step_live cfg cell r _ hl, stepHead_tooBig_server cfg cell r enc s' hrole hn hm]
-    simp [tooBigServer, h431, write_stopped _ _ c hs hfin]
+    simp [tooBigServer, h431, write_stopped _ _ _ c hs hfin]
   | tooBigTrailers enc ht he hm hl =>
     rw [Req.step_live cfg cell r _ hl, stepTrailers_tooBig cfg cell r enc ht he hm]
   | malformedTrailersFin enc s' ht he hn hm hl =>
@@ -235,7 +235,8 @@ theorem C07_stream_fault_is_local (cfg : Cfg) (c : Conn) (i : Nat) (ev : StreamE
     nothing is sent (the receive side is over) and the handle stays; an oversized response
     ⇒ STOP_SENDING(H3_REQUEST_CANCELLED); an oversized request ⇒ the 431 HEADERS frame appended to
     what was written on THAT stream, no reset; a RESET met by a call, a STOP_SENDING met by a send
-    call ⇒ nothing is sent, nothing written (`first old c` = `c` unless one was sent before). -/
+    call ⇒ nothing is sent, nothing written, a write that was waiting for credit is dropped (`first old c` =
+    `c` unless one was sent before). -/
 theorem C07_fault_reaction (cfg : Cfg) (cell : Option Nat) (r : Req) :
     (∀ enc s', fsSrc.pollNext r.rx.src = (.frame (.headers enc), s') → cfg.hdr.head enc = .malformed →
       live cfg r .head →
@@ -257,7 +258,7 @@ theorem C07_fault_reaction (cfg : Cfg) (cell : Option Nat) (r : Req) :
       r'.snd = r.snd) ∧
     (∀ enc s' fs w, cfg.role = .server → fsSrc.pollNext r.rx.src = (.frame (.headers enc), s') →
       cfg.hdr.head enc = .tooBig → cfg.resp431 = some fs → H3.WriteBuf.fromFrame (.headers fs) = some w →
-      r.snd.stopped = none → r.snd.fin = false → live cfg r .head →
+      r.snd.stopped = none → r.snd.fin = false → r.snd.writing = none → live cfg r .head →
       let r' := (Req.step cfg cell r (.call .head)).1
       r'.snd.tx = r.snd.tx ++ w.view ∧ r'.rx.env.rst = r.rx.env.rst ∧ r'.rx.env.stop = r.rx.env.stop ∧
       r'.gone = true) ∧
@@ -265,7 +266,7 @@ theorem C07_fault_reaction (cfg : Cfg) (cell : Option Nat) (r : Req) :
       let r' := (Req.step cfg cell r (.call .data)).1
       r'.rx.env.rst = r.rx.env.rst ∧ r'.rx.env.stop = r.rx.env.stop ∧ r'.snd = r.snd) ∧
     (∀ c call, r.snd.stopped = some c → r.snd.fin = false → isWrite call = true → live cfg r call →
-      (Req.step cfg cell r (.call call)).1 = r) := by
+      (Req.step cfg cell r (.call call)).1 = { r with snd := { r.snd with writing := none } }) := by
   refine ⟨?_, ?_, ?_, ?_, ?_, ?_, ?_⟩
   · intro enc s' hn hm hl
     rw [Req.step_live cfg cell r _ hl, stepHead_malformed cfg cell r enc s' hn hm]
@@ -279,9 +280,9 @@ theorem C07_fault_reaction (cfg : Cfg) (cell : Option Nat) (r : Req) :
   · intro enc s' hrole hn hm hl
     rw [Req.step_live cfg cell r _ hl, stepHead_tooBig_client cfg cell r enc s' hrole hn hm]
     exact ⟨rfl, rfl, rfl⟩
-  · intro enc s' fs w hrole hn hm h431 hw hs hfin hl
+  · intro enc s' fs w hrole hn hm h431 hw hs hfin hw0 hl
     rw [Req.step_live cfg cell r _ hl, stepHead_tooBig_server cfg cell r enc s' hrole hn hm]
-    simp [tooBigServer, h431, write_ok _ _ w hs hfin hw, unload]
+    simp [tooBigServer, h431, write_ok _ _ w hs hfin hw0 hw, unload]
   · intro s c rest hsrc he hl
     rw [Req.step_live cfg cell r _ hl]
     by_cases hr : s.remaining = 0
@@ -293,7 +294,7 @@ theorem C07_fault_reaction (cfg : Cfg) (cell : Option Nat) (r : Req) :
       exact ⟨rfl, rfl, rfl⟩
   · intro c call hs hfin hw hl
     rw [Req.step_live cfg cell r _ hl]
-    cases call <;> simp [isWrite] at hw <;> simp [stepSend, write_stopped _ _ c hs hfin]
+    cases call <;> simp [isWrite] at hw <;> simp [stepSend, write_stopped _ _ _ c hs hfin]
 
 /-- **Only a connection-level answer writes the cell.** Whatever the state, whatever the event:
     if the step on stream `i` does not tell its application `StreamError::ConnectionError`, the
@@ -879,7 +880,7 @@ example : FaultStep srv (c₂.get 12) (.call .head) (.ans (.res (.errStream 269)
   .finFirst _ (fsSrc.pollNext (c₂.get 12).rx.src).2 rfl (by decide +kernel) (by decide +kernel)
 example : FaultStep srv (c₂.get 16) (.call .head) (.ans .tooBig) :=
   .tooBigHeadServer _ [0xff] (fsSrc.pollNext (c₂.get 16).rx.src).2 _ _ rfl (by decide +kernel) (by decide +kernel)
-    rfl rfl (by decide +kernel) (by decide +kernel) (by decide +kernel)
+    rfl rfl (by decide +kernel) (by decide +kernel) (by decide +kernel) (by decide +kernel)
 example : (run srv c₂ [on 12 (.call .head), on 16 (.call .head), .drive]).2 =
     [(12, .ans (.res (.errStream 269))), (16, .ans .tooBig)] := by decide +kernel
 example : ((run srv c₂ [on 12 (.call .head), on 16 (.call .head), .drive]).1.get 16).snd.tx =
